@@ -250,6 +250,7 @@ func renameContract(c *Contract, ren map[string]string) *Contract {
 		return out
 	}
 	n.Requires, n.Ensures, n.Invariants, n.Relies, n.Defines = rc(c.Requires), rc(c.Ensures), rc(c.Invariants), rc(c.Relies), rc(c.Defines)
+	n.Joins = rc(c.Joins)
 	if c.Decreases != nil {
 		d := *c.Decreases
 		d.Expr = renameExpr(d.Expr, ren)
